@@ -110,7 +110,7 @@ func (r *Runner) checkProperty(id string) int {
 	}
 	var violations []vio
 	var knownHits []*Obligation
-	nObl, nDis, nCan, nCanOK := 0, 0, 0, 0
+	nObl, nDis, nCan, nCanOK, nRestricted := 0, 0, 0, 0, 0
 	byBackend := map[string]int{}
 	solverTime := 0.0
 	var undischarged []string
@@ -164,6 +164,10 @@ func (r *Runner) checkProperty(id string) int {
 					v := runSolvers(r.workdir, o.Name+".restricted", o.query(not(o.Except).S, false), r.queryTimeout(), r.only)
 					solverTime += v.Seconds
 					if v.Result == "unsat" {
+						// discharged outside the recorded input class of the known finding
+						nDis++
+						nRestricted++
+						byBackend[v.Solver]++
 						o.Status = "known-finding"
 						knownHits = append(knownHits, o)
 						for _, k := range o.Known {
@@ -194,7 +198,7 @@ func (r *Runner) checkProperty(id string) int {
 	}
 	exit := 0
 	// report
-	replayDir := filepath.Join(r.verif, "replay")
+	replayDir := filepath.Join(r.outDir(), "replay")
 	for _, v := range violations {
 		rp := r.replayObligation(v.o, id, replayDir)
 		suffix := ""
@@ -267,6 +271,7 @@ func (r *Runner) checkProperty(id string) int {
 		"solver_time_s":            round3(solverTime),
 		"undischarged":             undischarged,
 		"known_findings_hit":       kfl,
+		"discharged_only_outside_known_finding_class": nRestricted,
 		"vacuity":                  map[string]any{"canaries": nCan, "canaries_reachable": nCanOK, "rule": "each canary asserts false at a function entry, loop body or return and must NOT be provable"},
 		"samples":                  samples,
 		"dropped":                  droppedStatement,
@@ -286,9 +291,9 @@ func (r *Runner) checkProperty(id string) int {
 		ev.Level = "other"
 		cov["explanation"] = "no obligation was discharged in this run"
 	}
-	_ = os.MkdirAll(filepath.Join(r.verif, "evidence"), 0o755)
+	_ = os.MkdirAll(filepath.Join(r.outDir(), "evidence"), 0o755)
 	data, _ := json.MarshalIndent(ev, "", " ")
-	_ = os.WriteFile(filepath.Join(r.verif, "evidence", id+".json"), append(data, '\n'), 0o644)
+	_ = os.WriteFile(filepath.Join(r.outDir(), "evidence", id+".json"), append(data, '\n'), 0o644)
 	fmt.Printf("property %s: %d functions, %d obligations, %d discharged, %d known-finding, %d violations, %.1fs\n",
 		id, len(frs), nObl, nDis, len(knownHits), len(violations)+len(toolErrs), time.Since(t0).Seconds())
 	if r.verbose {
@@ -321,12 +326,20 @@ func (e *Engine) standing() []string {
 	}
 }
 
-func (e *Engine) notDecided(id string) []string { return notDecidedByProp[id] }
-
-var notDecidedByProp = map[string][]string{}
+func (e *Engine) notDecided(id string) []string {
+	data, err := os.ReadFile(filepath.Join(e.verifDir, "not_decided.json"))
+	if err != nil {
+		return nil
+	}
+	m := map[string][]string{}
+	if json.Unmarshal(data, &m) != nil {
+		return nil
+	}
+	return m[id]
+}
 
 func (r *Runner) toolFailure(id, msg string) string {
-	dir := filepath.Join(r.verif, "replay", "tool-"+id)
+	dir := filepath.Join(r.outDir(), "replay", "tool-"+id)
 	_ = os.MkdirAll(dir, 0o755)
 	p := filepath.Join(dir, "replay.json")
 	data, _ := json.MarshalIndent(map[string]any{"property": id, "kind": "tool-error", "message": msg}, "", " ")
